@@ -237,6 +237,7 @@ static int fs_lookup(const char *path)
 }
 
 /* ---- blocking ---- */
+int sk_interrupt;   /* set by an environment step: the blocking call in progress fails with EINTR */
 static void block_on(const char *what)
 {
   int t0 = K->now;
@@ -421,6 +422,7 @@ ssize_t __wrap_read(int fd, void *buf, size_t n)
     if (f->nonblock) { errno = EAGAIN; return -1; }
     if (first) { K->blocks++; sk_logev(LK_BLOCK, LK_READ, fd, 0, 0); first = 0; }
     block_on("read");
+    if (sk_interrupt) { sk_interrupt = 0; errno = EINTR; return -1; }
   }
 }
 
@@ -455,6 +457,7 @@ ssize_t __wrap_write(int fd, const void *buf, size_t n)
     }
     if (first) { K->blocks++; sk_logev(LK_BLOCK, LK_WRITE, fd, 0, 0); first = 0; }
     block_on("write");
+    if (sk_interrupt) { sk_interrupt = 0; if (done > 0) break; errno = EINTR; return -1; }
   }
   sk_logev(LK_WRITE, fd, (int) n, 0, (int) done);
   return (ssize_t) done;
@@ -483,6 +486,7 @@ int __wrap_poll(struct pollfd *fds, nfds_t nfds, int timeout)
     if (first) { K->blocks++; sk_logev(LK_BLOCK, LK_POLL, timeout, 0, 0); first = 0; }
     sk_block_until = until;
     block_on("poll");
+    if (sk_interrupt) { sk_interrupt = 0; sk_block_until = SK_INF; errno = EINTR; return -1; }
   }
 }
 
@@ -712,6 +716,7 @@ pid_t __wrap_waitpid(pid_t pid, int *status, int options)
     if (options & WNOHANG) { sk_logev(LK_WAITPID, pid, options, 0, 0); return 0; }
     if (first) { K->blocks++; sk_logev(LK_BLOCK, LK_WAITPID, pid, 0, 0); first = 0; }
     block_on("waitpid");
+    if (sk_interrupt) { sk_interrupt = 0; errno = EINTR; return -1; }
   }
   c->state = PS_REAPED;
   if (status) *status = c->status;
